@@ -348,4 +348,101 @@ theorem heapOrd_top_le {lt : Nat → Nat → Bool} (wo : WeakOrd lt) {d n : Nat}
       have h2 := ih (parent d i) hp (by omega)
       exact wo.le_trans h2 h1
 
+
+/-! ### re-sifting one slot (remove / update of the addressable heap) -/
+
+/-- heap order for all pairs that do not involve slot `h`; the children of `h` respect its parent -/
+structure HeapExcept (lt : Nat → Nat → Bool) (d : Nat) {m : Nat} (b : Vector Nat m) (h : Nat) (hh : h < m) : Prop where
+  other : ∀ i (hi : i < m), 0 < i → i ≠ h → parent d i ≠ h → lt b[i] (atParent d b i hi) = false
+  gp : 0 < h → ∀ c (hc : c < m), 0 < c → parent d c = h → lt b[c] (atParent d b h hh) = false
+
+theorem siftAt_up {lt : Nat → Nat → Bool} (wo : WeakOrd lt) (d : Nat) {m : Nat} (b : Vector Nat m) (h : Nat) (hh : h < m)
+    (hex : HeapExcept lt d b h hh) (h0 : 0 < h) (hlt : lt b[h] (atParent d b h hh) = true) :
+    HeapOrd lt d (siftUp lt d b h hh) := by
+  unfold siftUp
+  apply siftUpFrom_heap wo
+  rw [set_self]
+  constructor
+  · intro i hi hi0 hih
+    by_cases hp : parent d i = h
+    · -- a child of `h`: not less than the parent of `h`, which is greater than `b[h]`
+      have h1 := hex.gp h0 i hi hi0 hp
+      cases hc : lt b[i] (atParent d b i hi) with
+      | false => rfl
+      | true =>
+        have e : atParent d b i hi = b[h] := by simp [atParent, hp]
+        rw [e] at hc
+        have := wo.trans _ _ _ hc hlt
+        simp [h1] at this
+    · exact hex.other i hi hi0 hih hp
+  · intro c hc hc0 hp _
+    exact hex.gp h0 c hc hc0 hp
+
+theorem siftAt_down {lt : Nat → Nat → Bool} (wo : WeakOrd lt) (d : Nat) (hd : 0 < d) {m : Nat} (b : Vector Nat m)
+    (h : Nat) (hh : h < m) (hex : HeapExcept lt d b h hh)
+    (hn : ¬ (0 < h ∧ lt b[h] (atParent d b h hh) = true)) :
+    HeapOrd lt d (siftDown lt d hd b h hh) := by
+  unfold siftDown
+  rw [← heapFrom_zero]
+  apply siftDownFrom_heap wo
+  rw [set_self]
+  refine ⟨Nat.zero_le _, ?_, fun h0 _ c hc hc0 hp => hex.gp h0 c hc hc0 hp⟩
+  intro i hi hi0 _ hp
+  by_cases hih : i = h
+  · subst hih
+    cases hc : lt b[i] (atParent d b i hi) with
+    | false => rfl
+    | true => exact absurd ⟨hi0, hc⟩ hn
+  · exact hex.other i hi hi0 hih hp
+
+theorem array_eq_pop_push (a : Array Nat) (h : 0 < a.size) : a = a.pop.push (a[a.size - 1]'(by omega)) := by
+  apply Array.ext
+  · simp; omega
+  · intro i h1 h2
+    by_cases hi : i < a.size - 1
+    · rw [Array.getElem_push_lt (by simpa using hi)]; simp
+    · have : i = a.size - 1 := by omega
+      subst this
+      simp [Array.getElem_push]
+
+
+theorem heapOrd_toArray {lt : Nat → Nat → Bool} {d n : Nat} (v : Vector Nat n) :
+    HeapOrd lt d (n := v.toArray.size) ⟨v.toArray, rfl⟩ ↔ HeapOrd lt d v := by
+  rcases v with ⟨arr, rfl⟩
+  exact Iff.rfl
+
+
+/-- the scan stays inside `[lo, right)` -/
+theorem minChildFrom_bound (lt : Nat → Nat → Bool) {n : Nat} (a : Vector Nat n) (lo right : Nat) (hr : right ≤ n)
+    (l : Nat) (c : { c : Nat // lo ≤ c ∧ c < n }) (hl : lo ≤ l) (hlr : l < right) (hcl : c.1 ≤ l) :
+    (minChildFrom lt a lo right hr l c hl).1 < right := by
+  fun_induction minChildFrom lt a lo right hr l c hl with
+  | case1 l c hl h hl1 ih =>
+    apply ih h
+    split <;> (try simp) <;> omega
+  | case2 l c hl h => omega
+
+
+theorem heapifyLoop_perm (lt : Nat → Nat → Bool) (d : Nat) (hd : 0 < d) {n : Nat} (h2 : 2 ≤ n)
+    (a : Vector Nat n) (i : Nat) (hi : i ≤ (n - 2) / d + 1) : (heapifyLoop lt d hd h2 a i hi).Perm a := by
+  induction i generalizing a with
+  | zero => exact .rfl
+  | succ i ih =>
+    simp only [heapifyLoop]
+    have hcur : i ≤ (n - 2) / d := Nat.le_of_succ_le_succ hi
+    have hin : i < n := Nat.lt_trans (left_gt hd) (left_le_of_le_last h2 hcur)
+    rw [heapifyDown_eq]
+    have hperm : (siftDownFrom lt d hd a[i] a i hin).Perm a := by
+      have := siftDownFrom_perm lt d hd a[i] a i hin
+      rwa [set_self] at this
+    exact (ih _ (Nat.le_succ_of_le hcur)).trans hperm
+
+/-- `heapify` permutes for every comparator (no order hypothesis) -/
+theorem heapify_perm (lt : Nat → Nat → Bool) (d : Nat) (hd : 0 < d) {n : Nat} (a : Vector Nat n) :
+    (heapify lt d hd a).Perm a := by
+  unfold heapify
+  split
+  · exact heapifyLoop_perm lt d hd _ a _ _
+  · exact .rfl
+
 end TlxVerif.C13
